@@ -539,6 +539,13 @@ func flushBatchRule(o *Ob) (batch ssa.Value, resolved ssa.Value, nf ssa.CallInst
 	o.Require(len(parts) >= 1, "batch-parts", "the notified batch is not built by appending the group's alerts", nf)
 	ls := o.One(e.Calls(fn, "(*am/store.Alerts).List"), "list", "flush must list the group's alerts", fn)
 	o.Check(e.Arg(ls, 0) == "recv.alerts", "list-arg", "flush must list its own store", ls)
+	// an alert may be appended at more than one place (one per branch): what matters is that every iteration appends
+	var appends []ssa.Instruction
+	for _, p := range parts {
+		if p.Call != nil {
+			appends = append(appends, p.Call)
+		}
+	}
 	for _, p := range parts {
 		l := e.LoopOf(p.Call)
 		if !o.Check(l != nil, "batch-loop", "the batch is not filled in a loop", p.Call) {
@@ -547,7 +554,7 @@ func flushBatchRule(o *Ob) (batch ssa.Value, resolved ssa.Value, nf ssa.CallInst
 		coll, kind := e.RangeOver(l)
 		o.Check(coll == e.X(fn, ls.(*ssa.Call)) && kind == "index", "batch-range", "the batch must be built from every listed alert, loop ranges over "+coll, p.Call)
 		o.Check(len(e.EarlyExits(l)) == 0, "batch-early-exit", "the loop over the group's alerts can stop early", p.Call)
-		o.Check(!loopBackWithout(o, l, IsInstr(p.Call), nil), "batch-filter", "an alert of the group can be left out of the notification (a delta instead of the whole group)", p.Call)
+		o.Check(!loopBackWithout(o, l, IsInstr(appends...), nil), "batch-filter", "an alert of the group can be left out of the notification (a delta instead of the whole group)", p.Call)
 		// element is the per-iteration copy
 		al, ok := p.V.(*ssa.Alloc)
 		if o.Check(ok, "batch-elem", "the batch element must be a copy of the stored alert", p.Call) {
